@@ -22,6 +22,7 @@ then fail closed on it, never silently pass.
 The transformation is purely structural (no evaluation), bounded (depth 4) and is applied identically to every tree;
 `RSAV_NO_INLINE=1` disables it for debugging."""
 import copy
+import json
 
 POLL = "core::future::future::Future::poll"
 MAX_DEPTH = 4
@@ -438,12 +439,23 @@ class Inliner:
         self.closure_inlined.add(callee["def"])
         return newb
 
+    OPT, RES = "std::option::Option", "std::result::Result"
+    # callee -> {variant index of the receiver: action}; actions: ("mk", adt, variant, vidx, with_payload) builds a value,
+    # ("call", arg index of the closure, wrap or None, with_payload) calls the closure, ("arg", index) takes an (already evaluated) argument
     COMBINATORS = {
-        "std::option::Option::<T>::map": ("std::option::Option", "None", "Some", 0, 1, True),
-        "std::option::Option::<T>::and_then": ("std::option::Option", "None", "Some", 0, 1, False),
-        "std::result::Result::<T, E>::map": ("std::result::Result", "Err", "Ok", 1, 0, True),
-        "std::result::Result::<T, E>::and_then": ("std::result::Result", "Err", "Ok", 1, 0, False),
+        "std::option::Option::<T>::map": (OPT, {0: ("mk", OPT, "None", 0, False), 1: ("call", 1, (OPT, "Some", 1), True)}),
+        "std::option::Option::<T>::and_then": (OPT, {0: ("mk", OPT, "None", 0, False), 1: ("call", 1, None, True)}),
+        "std::option::Option::<T>::map_or": (OPT, {0: ("arg", 1), 1: ("call", 2, None, True)}),
+        "std::option::Option::<T>::map_or_else": (OPT, {0: ("call", 1, None, False), 1: ("call", 2, None, True)}),
+        "std::result::Result::<T, E>::map": (RES, {0: ("call", 1, (RES, "Ok", 0), True), 1: ("mk", RES, "Err", 1, True)}),
+        "std::result::Result::<T, E>::and_then": (RES, {0: ("call", 1, None, True), 1: ("mk", RES, "Err", 1, True)}),
+        "std::result::Result::<T, E>::map_or": (RES, {0: ("call", 2, None, True), 1: ("arg", 1)}),
+        "std::result::Result::<T, E>::map_or_else": (RES, {0: ("call", 2, None, True), 1: ("call", 1, None, True)}),
+        "std::result::Result::<T, E>::map_err": (RES, {0: ("mk", RES, "Ok", 0, True), 1: ("call", 1, (RES, "Err", 1), True)}),
+        "std::result::Result::<T, E>::ok": (RES, {0: ("mk", OPT, "Some", 1, True), 1: ("mk", OPT, "None", 0, False)}),
+        "std::result::Result::<T, E>::err": (RES, {0: ("mk", OPT, "None", 0, False), 1: ("mk", OPT, "Some", 1, True)}),
     }
+    VNAMES = {OPT: ["None", "Some"], RES: ["Ok", "Err"]}
 
     def _effectful_closure(self, cdef):
         """Does the closure (or a closure nested in it) call into this crate / tokio / std (not just alloc / core)?"""
@@ -451,78 +463,147 @@ class Inliner:
             b = self.raw.get(m)
             for blk in (b or {}).get("blocks", []):
                 t = blk["term"]
-                if t["k"] == "call" and t.get("fn") and (t["fn"].get("krate") in (self.d.get("crate"), "tokio", "std") or t["fn"]["def"] in self.fns
+                if t["k"] == "call" and t.get("fn") and (t["fn"].get("krate") in (self.d.get("crate"), "tokio", "std", "tracing", "log") or t["fn"]["def"] in self.fns
                                                          or t["fn"].get("name") == "downcast"):        # the typed view of a received reply
                     return True
         return False
 
+    def _closure_of(self, body, op):
+        """(closure def, place) if the operand is a crate closure value held in a plain local."""
+        pl = op.get("move") or op.get("copy")
+        if pl is None or pl["p"]:
+            return None
+        cty = self.d["types"][body["locals"][pl["l"]]["ty"]]
+        if isinstance(cty, dict) and cty.get("k") == "closure" and cty.get("def") in self.raw:
+            return cty["def"], pl
+        return None
+
     def _lower_combinator(self, body, k):
-        """`opt.map(|x| ..)` / `.and_then(..)` / `res.map(..)` / `.and_then(..)` with a closure of this crate that *does* something
-        (calls into the crate, tokio or std): rewritten into the `match` it abbreviates - switch on the discriminant, the
-        closure called on the payload in one arm (and then spliced in like any by-value closure call), the other variant
-        passed through. A combinator over a pure closure (`.map(|r| Box::new(r))`, `.map(|_| ())`) is left as it is."""
+        """`opt.map(|x| ..)`, `.and_then(..)`, `.map_or(d, ..)`, `.map_or_else(.., ..)`, `res.map(..)`, `.map_err(..)`, `.ok()`,
+        `.err()` ... rewritten into the `match` they abbreviate: a switch on the receiver's discriminant, per variant either
+        a value built from the payload, an argument that was evaluated anyway, or a call of the closure on the payload
+        (which is then spliced in like any by-value closure call). Left alone: combinators over closures that are not
+        closures of this crate; `map` / `and_then` over a closure that only reshapes data (`.map(|r| Box::new(r))`);
+        `map_err` whose closure builds the crate's Error (the error-context rules of the delivery functions are stated
+        over that form); `ok()` / `err()` unless their result only feeds another lowered combinator."""
         blk = body["blocks"][k]
         t = blk["term"]
         fn = t.get("fn") or {}
         spec = self.COMBINATORS.get(fn.get("def"))
-        if spec is None or len(t["args"]) != 2 or not fn.get("targs") or not t["dest"] is not None:
+        if spec is None or not t["args"] or t.get("target") is None:
             return False
-        adt, pass_v, call_v, pass_idx, call_idx, wrap = spec
-        targs = fn["targs"]
-        cty = self.d["types"][targs[-1]]
-        if not isinstance(cty, dict) or cty.get("k") != "closure" or cty.get("def") not in self.raw or not self._effectful_closure(cty["def"]):
-            return False
+        src_adt, actions = spec
         src = t["args"][0].get("move") or t["args"][0].get("copy")
-        clo = t["args"][1].get("move") or t["args"][1].get("copy")
-        if src is None or src["p"] or clo is None or clo["p"] or t.get("target") is None:
+        if src is None or src["p"]:
             return False
-        callee = self.raw[cty["def"]]
-        if callee.get("arg_count") != 2:
-            return False
-        span = t["span"]
         types = self.d["types"]
+        name = fn.get("name")
+        closures = {}
+        for act in actions.values():
+            if act[0] == "call":
+                c = self._closure_of(body, t["args"][act[1]]) if act[1] < len(t["args"]) else None
+                if c is None:
+                    return False
+                closures[act[1]] = c
+        if name in ("map", "and_then") and not any(self._effectful_closure(c[0]) for c in closures.values()):
+            return False
+        if name == "map_err":
+            cdef = closures[1][0]
+            rty = types[self.raw[cdef]["locals"][0]["ty"]]
+            if isinstance(rty, dict) and (rty.get("def") == "error::Error" or (rty.get("s") or "").endswith("error::Error")):
+                return False
+        if name in ("ok", "err"):
+            # only as the receiver of another combinator that is lowered
+            d = t["dest"]
+            if d["p"]:
+                return False
+            uses = 0
+            feeds = False
+            for b2 in body["blocks"]:
+                for st in b2["stmts"]:
+                    if ('"l": %d,' % d["l"]) in json.dumps(st.get("rv", {})) or ('"l": %d}' % d["l"]) in json.dumps(st.get("rv", {})):
+                        uses += 1
+                t2 = b2["term"]
+                if t2 is t:
+                    continue
+                if t2["k"] == "call":
+                    for ai, a in enumerate(t2["args"]):
+                        pl = a.get("move") or a.get("copy")
+                        if pl and pl["l"] == d["l"]:
+                            uses += 1
+                            if ai == 0 and not pl["p"] and (t2.get("fn") or {}).get("def") in self.COMBINATORS and (t2.get("fn") or {}).get("name") not in ("ok", "err"):
+                                feeds = True
+                elif t2["k"] == "switch":
+                    pl = t2["discr"].get("move") or t2["discr"].get("copy")
+                    if pl and pl["l"] == d["l"]:
+                        uses += 1
+            if not (feeds and uses == 1):
+                return False
+        span = t["span"]
         isize = next((i for i, x in enumerate(types) if isinstance(x, dict) and x.get("s") == "isize"), None)
         if isize is None:
             return False
-        payload_ty = targs[0]
-        ret_ty = callee["locals"][0]["ty"]
-        types.append({"s": "(%s,)" % types[payload_ty].get("s", "?"), "k": "tuple", "args": [payload_ty]})
-        tup_ty = len(types) - 1
-        L = len(body["locals"])
-        for ty in (isize, payload_ty, tup_ty, ret_ty):
+        src_ty = types[body["locals"][src["l"]]["ty"]]
+        if not isinstance(src_ty, dict) or not src_ty.get("args"):
+            return False
+        pay_tys = {0: src_ty["args"][0], 1: src_ty["args"][1] if len(src_ty["args"]) > 1 else src_ty["args"][0]} if src_adt == self.RES else {1: src_ty["args"][0]}
+
+        def new_local(ty):
             body["locals"].append({"ty": ty, "mut": True, "span": span, "inl": "combinator"})
-        d_, pay, tup, res = L, L + 1, L + 2, L + 3
-        B = len(body["blocks"])
-        # k: switch; B: pass-through arm; B+1: call arm (call_once); B+2: wrap result
-        full = {"adt": adt, "targs": [], "fields": ["0"], "agg": "adt"}
-        if adt.endswith("Option"):
-            pass_rv = {"agg": "adt", "adt": adt, "variant": "None", "vidx": 0, "fields": [], "targs": [], "ops": []}
-        else:
-            body["locals"].append({"ty": targs[1], "mut": True, "span": span, "inl": "combinator"})
-            e_ = L + 4
-            pass_rv = {"agg": "adt", "adt": adt, "variant": "Err", "vidx": 1, "fields": ["0"], "targs": [], "ops": [{"move": {"l": e_, "p": []}}]}
+            return len(body["locals"]) - 1
+        d_ = new_local(isize)
         blk["stmts"].append({"k": "assign", "place": {"l": d_, "p": []}, "rv": {"discr": {"l": src["l"], "p": []}, "ty": body["locals"][src["l"]]["ty"]}, "span": span})
-        blk["term"] = {"k": "switch", "discr": {"move": {"l": d_, "p": []}}, "discr_ty": isize, "arms": [[str(pass_idx), B]], "otherwise": B + 1, "span": span, "lowered": fn["def"]}
-        pass_stmts = []
-        if not adt.endswith("Option"):
-            pass_stmts.append({"k": "assign", "place": {"l": e_, "p": []}, "rv": {"use": {"move": {"l": src["l"], "p": [{"v": 1, "name": "Err"}, 0]}}}, "span": span})
-        pass_stmts.append({"k": "assign", "place": t["dest"], "rv": pass_rv, "span": span})
-        body["blocks"].append({"cleanup": False, "stmts": pass_stmts, "term": {"k": "goto", "target": t["target"], "span": span}})
-        call_fn = {"def": "std::ops::FnOnce::call_once", "targs": [targs[-1], tup_ty], "krate": "core", "path": "core::ops::function::FnOnce::call_once", "name": "call_once"}
-        body["blocks"].append({"cleanup": False, "stmts": [
-            {"k": "assign", "place": {"l": pay, "p": []}, "rv": {"use": {"move": {"l": src["l"], "p": [{"v": call_idx, "name": call_v}, 0]}}}, "span": span},
-            {"k": "assign", "place": {"l": tup, "p": []}, "rv": {"agg": "tuple", "ops": [{"move": {"l": pay, "p": []}}]}, "span": span}],
-            "term": {"k": "call", "fn": call_fn, "args": [{"move": {"l": clo["l"], "p": []}}, {"move": {"l": tup, "p": []}}], "dest": {"l": res, "p": []},
-                     "target": B + 2, "unwind": t.get("unwind"), "span": span, "fn_span": t.get("fn_span", span)}})
-        if wrap:
-            out_rv = {"agg": "adt", "adt": adt, "variant": call_v, "vidx": call_idx, "fields": ["0"], "targs": [], "ops": [{"move": {"l": res, "p": []}}]}
-        else:
-            out_rv = {"use": {"move": {"l": res, "p": []}}}
-        body["blocks"].append({"cleanup": False, "stmts": [{"k": "assign", "place": t["dest"], "rv": out_rv, "span": span}], "term": {"k": "goto", "target": t["target"], "span": span}})
-        nb = self._inline_closure_call(body, B + 1)
-        if nb is None:
-            return False      # cannot happen for the forms checked above; the lowered call stays an explicit call_once
-        self._lowered_new = nb
+        B = len(body["blocks"])
+        arm_blocks = {}
+        to_inline = []
+        new_blocks = []
+
+        def add_block(b):
+            new_blocks.append(b)
+            return B + len(new_blocks) - 1
+        for vidx in (0, 1):
+            act = actions[vidx]
+            vname = self.VNAMES[src_adt][vidx]
+            has_payload = not (src_adt == self.OPT and vidx == 0)
+            stmts = []
+            pay = None
+            if has_payload and ((act[0] == "mk" and act[4]) or (act[0] == "call" and act[3])):
+                pay = new_local(pay_tys[vidx])
+                stmts.append({"k": "assign", "place": {"l": pay, "p": []}, "rv": {"use": {"move": {"l": src["l"], "p": [{"v": vidx, "name": vname}, 0]}}}, "span": span})
+            if act[0] == "mk":
+                ops = [{"move": {"l": pay, "p": []}}] if (act[4] and pay is not None) else []
+                stmts.append({"k": "assign", "place": t["dest"], "rv": {"agg": "adt", "adt": act[1], "variant": act[2], "vidx": act[3], "fields": ["0"] if ops else [], "targs": [], "ops": ops}, "span": span})
+                arm_blocks[vidx] = add_block({"cleanup": False, "stmts": stmts, "term": {"k": "goto", "target": t["target"], "span": span}})
+            elif act[0] == "arg":
+                stmts.append({"k": "assign", "place": t["dest"], "rv": {"use": t["args"][act[1]]}, "span": span})
+                arm_blocks[vidx] = add_block({"cleanup": False, "stmts": stmts, "term": {"k": "goto", "target": t["target"], "span": span}})
+            else:
+                cdef, cpl = closures[act[1]]
+                callee = self.raw[cdef]
+                nargs = callee.get("arg_count", 1) - 1
+                if (nargs == 1) != (pay is not None) and not (nargs == 0 and pay is None):
+                    return False
+                tys = [pay_tys[vidx]] if pay is not None else []
+                types.append({"s": "(%s)" % ",".join(types[x].get("s", "?") for x in tys), "k": "tuple", "args": tys})
+                tup = new_local(len(types) - 1)
+                res = new_local(callee["locals"][0]["ty"])
+                stmts.append({"k": "assign", "place": {"l": tup, "p": []}, "rv": {"agg": "tuple", "ops": [{"move": {"l": pay, "p": []}}] if pay is not None else []}, "span": span})
+                call_fn = {"def": "std::ops::FnOnce::call_once", "targs": [body["locals"][cpl["l"]]["ty"], len(types) - 1], "krate": "core", "path": "core::ops::function::FnOnce::call_once", "name": "call_once"}
+                after_i = B + len(new_blocks) + 1
+                call_i = add_block({"cleanup": False, "stmts": stmts, "term": {"k": "call", "fn": call_fn, "args": [{"move": {"l": cpl["l"], "p": []}}, {"move": {"l": tup, "p": []}}],
+                                    "dest": {"l": res, "p": []}, "target": after_i, "unwind": t.get("unwind"), "span": span, "fn_span": t.get("fn_span", span)}})
+                wrap = act[2]
+                out_rv = {"agg": "adt", "adt": wrap[0], "variant": wrap[1], "vidx": wrap[2], "fields": ["0"], "targs": [], "ops": [{"move": {"l": res, "p": []}}]} if wrap else {"use": {"move": {"l": res, "p": []}}}
+                add_block({"cleanup": False, "stmts": [{"k": "assign", "place": t["dest"], "rv": out_rv, "span": span}], "term": {"k": "goto", "target": t["target"], "span": span}})
+                arm_blocks[vidx] = call_i
+                to_inline.append(call_i)
+        body["blocks"].extend(new_blocks)
+        blk["term"] = {"k": "switch", "discr": {"move": {"l": d_, "p": []}}, "discr_ty": isize, "arms": [["0", arm_blocks[0]]], "otherwise": arm_blocks[1], "span": span, "lowered": fn["def"]}
+        self._lowered_new = []
+        for ci in to_inline:
+            nb = self._inline_closure_call(body, ci)
+            if nb:
+                self._lowered_new += nb
         return True
 
     def _coroutine_ctor(self, outer):
